@@ -176,13 +176,15 @@ def main():
                 want = [str(a) for a in arg] if isinstance(arg, list) else str(arg)
                 if fnames != want:
                     run.violation(f"reader:{c['fmt']}:meta", f"{key}: meta file name(s) {fnames}, read from {want}", rep)
-                # explicit degrees_from_north wins over the file's metadata
-                if (ci + rep_i) % 4 == 0:
+                # explicit degrees_from_north wins over the file's metadata - also the values 0 and 0.0 (a value, not "omitted")
+                if (ci + rep_i) % 2 == 0:
+                    xdeg = (33.0, 0.0, 0, 180.0)[((ci + rep_i) // 2) % 4]
                     with warnings.catch_warnings():
                         warnings.simplefilter("ignore")
-                        r2 = h.read_single(arg, degrees_from_north=33.0)
-                    if r2.degrees_from_north != 33.0 or not np.array_equal(r2.vt.amplitude, vec[2]):
-                        run.violation(f"reader:{c['fmt']}:explicit-degrees", f"{key}: explicit degrees_from_north=33 gives {r2.degrees_from_north}", rep)
+                        r2 = h.read_single(arg, degrees_from_north=xdeg)
+                    if r2.degrees_from_north != float(xdeg) or not np.array_equal(r2.vt.amplitude, vec[2]) or not np.array_equal(r2.ns.amplitude, r.ns.amplitude):
+                        run.violation(f"reader:{c['fmt']}:explicit-degrees", f"{key}: explicit degrees_from_north={xdeg!r} gives {r2.degrees_from_north} "
+                                      f"(the file's own orientation is {r.degrees_from_north})", rep)
                 run.case((c["fmt"], tuple(c["perm"]), c["nv"], eol) if c["defect"] == "none" and c["perm"] != [1, 2, 3] else None,
                          sample=dict(format=c["fmt"], order=c["perm"], names=c["names"], n=len(vec[0]), dt=dt) if len(run.samples) < 3 and c["perm"] == [3, 1, 2] else None)
                 _cleanup(arg)
@@ -220,7 +222,7 @@ def read_args(run, h, wd, rng):
         fn = os.path.join(wd, f"args_{i}.mseed")
         Stream(trs).write(fn, format="MSEED")
         files.append(fn); vecs.append(v)
-    degs = [10.0, 200.0, 355.0]
+    degs = [10.0, 0.0, 355.0]
     for f in forms:
         kw = None if f["kf"] == "none" else ({"format": "MSEED"} if f["kf"] == "one" else [{"format": "MSEED"}, {"format": "MSEED"}, {"format": "MSEED"}])
         dg = None if f["df"] == "none" else (45.0 if f["df"] == "one" else list(degs))
